@@ -181,6 +181,38 @@ theorem cancel_requeue_shape :
     requeueSkeleton = ["call sch.uuidLock", "if !sch.uuidLock(uuid, \"requeue\") {", "return", "}", "defer",
                        "call sch.uuidUnlock", "call sch.queue.Unlock => err", "if err != nil {", "}"] := ⟨rfl, rfl⟩
 
+/-- `Pool.Create`: refused at quota or while throttled; the background goroutine registers the
+deletion of the pending entry (`defer delete(wp.creating, secret)`) directly after the cloud call
+returns — before any error is looked at — so every outcome removes it; a quota error sets
+`atQuotaUntil`; success calls `updateWorker` — `C15.CPool.call`, `C15.CPool.ret`. -/
+theorem create_skeleton : createSkeleton =
+    ["if wp.loadRunnerData() != nil {", "return", "}", "defer",
+     "call time.Now().Before", "call wp.instanceSet.throttleCreate.Error",
+     "if time.Now().Before(wp.atQuotaUntil) || wp.instanceSet.throttleCreate.Error() != nil {", "return", "}",
+     "if wp.maxConcurrentInstanceCreateOps > 0 && len(wp.creating) >= wp.maxConcurrentInstanceCreateOps {",
+     "call wp.instanceSet.throttleCreate.ErrorUntil", "return", "}",
+     "go", "func {", "defer", "call wp.notify", "call wp.instanceSet.Create => inst,err",
+     "defer", "defer", "call delete",
+     "if err != nil {", "if ok && err.IsQuotaError() {", "call time.AfterFunc", "}",
+     "call wp.instanceSet.throttleCreate.CheckRateLimitError", "return", "}",
+     "call wp.updateWorker", "}", "return"] := rfl
+
+theorem create_assigns : createAssigns =
+    ["wp.creating[secret] = createCall{time: now, instanceType: it}", "wp.atQuotaErr = err",
+     "wp.atQuotaUntil = time.Now().Add(quotaErrorTTL)"] := rfl
+
+/-- `Unallocated` skips Shutdown, Running, non-run-mode and busy workers and adds the pending
+Create calls — `C15.CPool.unallocated`, `Inst.unallocReal` of the liveness system. -/
+theorem unallocated_conds : unallocatedConds =
+    ["if !ok || t.After(cc.time)",
+     "if wkr.state == StateShutdown || wkr.state == StateRunning || wkr.idleBehavior != IdleBehaviorRun || len(wkr.running) > 0",
+     "if wkr.state == StateUnknown && creating[it] > 0 && wkr.appeared.After(oldestCreate[it])"] := rfl
+
+/-- `shutdown()` has no guard: calling it again on a worker that is already in StateShutdown issues
+another `Destroy` (this is how `Pool.sync` retries). -/
+theorem shutdown_unguarded : shutdownSkeleton =
+    ["go", "go", "func {", "call wkr.instance.Destroy => err", "if err != nil {", "return", "}", "}"] := rfl
+
 /-- The quota back-off is a fixed minute (why quota scenarios get a longer deadline). -/
 theorem quota_ttl : "quotaErrorTTL = time.Minute" ∈ poolTimeConsts := by decide
 
